@@ -60,17 +60,24 @@ NPIXELS = (5, 1)
 
 # ===========================================================================
 # spaces
+CORE = ('S', 'B2', 'B3t', 'H2a')            # H2a: its marker numbers have a hole (sub-npixels spike discarded)
+CORE_PAIRS_THOROUGH = CORE + ('H2m',)
+
+
 def refine_frames(tier):
     singles = [(t,) for t in S.TYPES]
-    core = ('S', 'B2', 'B3t')
-    pairs = [p for p in itertools.product(core, repeat=2)]
-    frames = singles + pairs
     if tier == 'quick':
-        frames += [('F', 'B2', 'P'), ('B3f', 'Y')]
+        pairs = [p for p in itertools.product(CORE, repeat=2)]
+        frames = singles + pairs
+        frames += [('F', 'B2', 'P'), ('B3f', 'Y'), ('H2m', 'N2'), ('H2q', 'H3a')]
     else:
-        frames += [t for t in itertools.product(core, repeat=3)]
+        pairs = [p for p in itertools.product(CORE_PAIRS_THOROUGH, repeat=2)]
+        frames = singles + pairs
+        frames += [t for t in itertools.product(CORE, repeat=3)]
         frames += [('F', 'B2', 'P'), ('B3f', 'Y'), ('B3f', 'T'), ('D', 'B2'), ('Y', 'B3r', 'F'),
-                   ('B3t', 'Y', 'B2', 'S'), ('B2', 'B3f', 'S', 'T', 'B2')]
+                   ('B3t', 'Y', 'B2', 'S'), ('B2', 'B3f', 'S', 'T', 'B2'),
+                   ('H2m', 'N2'), ('H2q', 'H3a'), ('N2', 'N2'), ('H2x', 'H2z', 'B2'), ('H2q', 'F', 'H2m'),
+                   ('N2', 'H3a', 'Y', 'H2x'), ('H2a', 'S', 'H2m', 'N2', 'B3t')]
     return frames
 
 
@@ -83,7 +90,7 @@ def refine_variants(tier, frame):
         return ('pos', 'nonpos')
     if len(frame) >= 3:
         # the per-parent algorithm axes are covered by the 1- and 2-parent frames; >= 3 parents add bookkeeping
-        return ('pos',) if set(frame) <= {'S', 'B2', 'B3t'} or len(frame) >= 5 else ('pos', 'nonpos')
+        return ('pos',) if set(frame) <= set(CORE) or len(frame) >= 5 else ('pos', 'nonpos')
     return ('pos', 'nonpos', 'quantity')
 
 
@@ -101,7 +108,7 @@ def subsets(labs, tier):
 
 
 def _subset_tier(tier, frame):
-    core3 = len(frame) == 3 and set(frame) <= {'S', 'B2', 'B3t'}
+    core3 = len(frame) == 3 and set(frame) <= set(CORE)
     return 'thorough+desc' if tier == 'thorough' and not core3 else tier
 
 
@@ -118,8 +125,10 @@ SCHED_SCENES = {
     's4c': (('Y', 'B3t', 'B2', 'T'), 1),        # npixels = 1: the 3-pixel parent is a task too
     's5a': (('B2', 'B3f', 'S', 'T', 'B3t'), 5),
     's5b': (('B3t', 'B2', 'F', 'B2', 'B3r'), 5),
+    's3e': (('H2a', 'B2', 'H2m'), 5),           # spike parents: per-task child numbers come from marker images with a hole
+    's4d': (('N2', 'H2a', 'B3t', 'H2q'), 5),
 }
-SCHED_QUICK = ['s2a', 's2b', 's3a', 's3b', 's3d', 's3c', 's4a', 's4b']
+SCHED_QUICK = ['s2a', 's2b', 's3a', 's3b', 's3d', 's3c', 's3e', 's4a', 's4b']
 SCHED_THOROUGH = list(SCHED_SCENES)
 SCHED_NUMBERINGS = ('consec', 'gaps', 'reversed')
 SCHED_VARIANTS = ('pos', 'nonpos', 'mixed')
@@ -164,7 +173,7 @@ def dtype_labels(dtype, offset, n):
 
 REAL_QUICK = [('s2a', 2), ('s3b', 3), ('s4b', 2)]
 REAL_THOROUGH = [('s2a', 2), ('s2b', 3), ('s3a', 2), ('s3b', 3), ('s4a', 3), ('s4b', 2), ('s5a', 3), ('s5b', 2),
-                 ('s4c', 3), ('s3c', 2), ('s5a', 2), ('s5b', 3)]
+                 ('s4c', 3), ('s3c', 2), ('s5a', 2), ('s5b', 3), ('s3e', 2), ('s4d', 3)]
 
 
 # ===========================================================================
